@@ -6,3 +6,40 @@ pub fn opt_or(a: Option<usize>, b: usize) -> (r: Option<usize>) ensures r == (if
 // R5: derived Clone on XrefEntry (moving out of the consumed map's entry list)
 #[verifier::external_body]
 pub fn clone_entry(e: &XrefEntry) -> (r: XrefEntry) ensures r == *e { unimplemented!() }
+
+// ---- cross-reference stream fields: big-endian integers read through std::io::Cursor (model) -----------------
+pub struct ErrTag;
+pub struct Cursor { pub data: Vec<u8>, pub pos: usize }
+impl Cursor {
+    /// std::io::Read::read_exact on a Cursor: fills the whole buffer from the current position or fails
+    #[verifier::external_body]
+    pub fn read_exact(&mut self, buf: &mut [u8]) -> (r: core::result::Result<(), ErrTag>)
+        ensures
+            final(self).data == old(self).data, final(buf)@.len() == old(buf)@.len(),
+            r is Ok <==> old(self).pos + old(buf)@.len() <= old(self).data@.len(),
+            r is Ok ==> final(self).pos == old(self).pos + old(buf)@.len() && final(buf)@ == old(self).data@.subrange(old(self).pos as int, old(self).pos + old(buf)@.len()),
+    { unimplemented!() }
+}
+pub fn u32_from(b: u8) -> (r: u32) ensures r == b as u32 { b as u32 }
+/// value of the bytes read high-order first, modulo 2^32 (a field wider than 4 bytes keeps its low-order 4 bytes)
+pub open spec fn be_value(b: Seq<u8>) -> nat decreases b.len() {
+    if b.len() == 0 { 0 } else { (be_value(b.drop_last()) * 256 + b.last() as nat) % 0x1_0000_0000 }
+}
+pub proof fn lemma_shl8_add(v: u32, b: u8)
+    ensures (v << 8) as nat + b as nat <= 0xFFFF_FFFF, ((v << 8) + b as u32) as nat == (v as nat * 256 + b as nat) % 0x1_0000_0000
+{
+    assert((v << 8) & 0xffu32 == 0 && (v << 8) <= 0xFFFF_FF00u32) by (bit_vector);
+    let lo: u32 = v & 0xFF_FFFFu32;
+    assert((v << 8) == (lo << 8) && lo == v % 0x100_0000u32 && lo <= 0xFF_FFFFu32) by (bit_vector) requires lo == v & 0xFF_FFFFu32;
+    assert(lo << 8 == lo * 256) by (bit_vector) requires lo <= 0xFF_FFFFu32;
+    assert((v as nat * 256) % 0x1_0000_0000 == (v as nat % 0x100_0000) * 256) by (nonlinear_arith);
+    assert((v << 8) as nat == (v as nat * 256) % 0x1_0000_0000);
+    assert(((v as nat * 256) % 0x1_0000_0000 + b as nat) == (v as nat * 256 + b as nat) % 0x1_0000_0000) by {
+        let m = (v as nat * 256) % 0x1_0000_0000;
+        assert(m % 256 == 0) by (nonlinear_arith) requires m == (v as nat * 256) % 0x1_0000_0000;
+        assert(m + 255 < 0x1_0000_0000) by (nonlinear_arith) requires m % 256 == 0, m < 0x1_0000_0000;
+        assert(m + (b as nat) < 0x1_0000_0000);
+        assert((v as nat * 256 + b as nat) % 0x1_0000_0000 == m + b as nat) by (nonlinear_arith)
+            requires m == (v as nat * 256) % 0x1_0000_0000, m + (b as nat) < 0x1_0000_0000;
+    }
+}
